@@ -125,6 +125,8 @@ def evaluate(gb, case, out):
     if kind == 'ok':
         return []           # the corruption still decodes: nothing to check here
     if kind in ('panic', 'hang'):
+        if case['mode'] != 'sync' and kind == 'panic':
+            return []       # capacity-overflow panic of the async preallocation: F-09e (C09), no returned error to measure
         if genrun.is_arg_swallow(sch, case['cfg'], case['type'], case['mode']):
             cls = 'keep-is-arg-swallow'
         return [('decoder %ss on malformed input' % kind, cls)]
